@@ -466,9 +466,22 @@ def handle_raise(ex, c, qual, st, val, env, snapshot):
               {'clause': 'no exception other than the declared ones (got %s: %s)' % (val.cls, val.note)})
 
 
-def verify_lemma(lem, timeout_ms=20000):
+def verify_lemma(lem, timeout_ms=20000, findings=(), reg=None):
     t0 = time.time()
     hyps, goal = lem['fn'](z3)
+    hyps = list(hyps)
+    out_extra = {}
+    fnd = [f for f in findings if f['obligation'].endswith('.' + lem['id'])]
+    if fnd:
+        klass = reg.finding_classes[fnd[0]['class'][3:]](z3)
+        hyps = hyps + [z3.Not(klass)]
+        out_extra = {'known': True, 'finding_id': fnd[0].get('id'), 'finding_what': fnd[0].get('what', '')}
     verdict, model, ms, backend, why = solve_vc(hyps, goal, timeout_ms)
-    return {'verdict': verdict, 'kind': 'lemma', 'paths': 1, 'ms': ms, 'backend': backend,
-            'clause': lem.get('doc') or lem['id'], 'why': str(why) if why else None}
+    if verdict == 'unsat' and fnd:
+        verdict = 'known'
+    o = {'verdict': verdict, 'kind': 'lemma', 'paths': 1, 'ms': ms, 'backend': backend,
+         'clause': lem.get('doc') or lem['id'], 'why': str(why) if why else None}
+    o.update(out_extra)
+    if verdict == 'sat' and model is not None:
+        o['model'] = {str(d): str(model[d]) for d in model.decls()}
+    return o
